@@ -1033,7 +1033,7 @@ def run_check(res, tier, replay, d):
                     c2 = spell_session(cs, sp)
                     c2["libs"] = "std"
                     sessions.append(c2)
-        n = 1500 if tier == "thorough" else 40
+        n = 1200 if tier == "thorough" else 40
         hi = 25
         rng = random.Random(seed() * 7919 + (1 if tier == "thorough" else 0))
         for i in range(n):
